@@ -11,6 +11,7 @@
 -/
 import GriddleModel.Lemmas.Steps
 import GriddleModel.Props.C05
+import GriddleModel.Lemmas.Small
 namespace Griddle.C17
 
 def withDebug (c : Cfg) (b : Bool) : Cfg := { c with debug := b }
@@ -208,5 +209,12 @@ theorem run_profile_independent (c : Cfg) (hR : 0 < c.R) (b : Bool) (orcs : Nat 
       obtain ⟨m', out⟩ := r
       simp only
       rw [ih m' (hpre.2 m' out hs)]
+
+/-- **… with no side condition**: from any state with the two invariants (in particular from a
+    fresh map) both profiles run every history identically. -/
+theorem run_profile_independent_unconditional (c : Cfg) (hR : 0 < c.R) (b : Bool) (orcs : Nat → Orc)
+    (ops : List Op) (m : Map) (h : Inv c.R m) (hs : Small m) :
+    run (withDebug c b) m ops orcs = run c m ops orcs :=
+  run_profile_independent c hR b orcs ops m (runPre_of_small c hR orcs ops m h hs)
 
 end Griddle.C17
